@@ -197,10 +197,15 @@ def run(ctx: Ctx):
         if gsl is not None and gsl.td is not None:
             gr = ba.RankFacts()
             gr.learn_from_reset(gsl.td)
+            # reset cells computed from the incoming (generated) instance inherit their rank through the expression
             for k, v in rs.td.cells.items():
-                v0 = nf.strip(v)
-                if v0.op == "cell0" and v0.args[1] in gr.cell_rank and k not in ranks.cell_rank:
-                    ranks.cell_rank[k] = gr.cell_rank[v0.args[1]]
+                if k in ranks.cell_rank:
+                    continue
+                r_in = gr.rank(v)
+                if r_in is not None:
+                    ranks.cell_rank[k] = r_in
+                    if gr.unit_last(v):
+                        ranks.cell_unit_last.add(k)
         st0 = env.slot("_step")
         if st0 is not None and st0.td is not None:
             # a state cell keeps its rank across steps (TorchRL specs fix the shapes of state keys)
@@ -264,6 +269,13 @@ def run(ctx: Ctx):
         ctx.sample({"env": cname, "row_uniform_keys": sorted(uni), "known_ranks": dict(sorted(ranks.cell_rank.items()))})
     ctx.extra["batch_global_ops_seen"] = n_hits
     ctx.extra["exceptions_used"] = sorted(map(list, used_exceptions))
+    # C04.c: a finished instance keeps being stepped (with the padding action) while its batch-mates run on; a reward read from
+    # state accumulators must not move during those steps (shared with C03.d)
+    from .C03 import padding_invariance
+    menv = EnvA(ctx.repo, T.ALL_ENVS["MTSPEnv"], "MTSPEnv")
+    msl = menv.slot("_step")
+    ctx.fn(msl.fi)
+    padding_invariance(ctx, "C04.c", msl, msl.cell("current_length"))
     guarded_callees(ctx)
     positive_control(ctx)
 
